@@ -20,3 +20,12 @@ Proof.
   - destruct (is_kind "OSome" lo) eqn:E; [|discriminate].
     intro H. inversion H; subst. eexists _, _, _. split; [reflexivity|]. split; [exact E|]. left; reflexivity.
 Qed.
+
+(* whatever path the block wrote for the main trait (or the type), the helper impl names the
+   helper trait by one bare segment: `_<Name><idx>`, with the row in front of the last segment's
+   own arguments (fix F33): the helper trait is only nameable inside the generated const block *)
+Theorem helper_path_bare idx row lp segs init ls args :
+  split_last segs = Some (init, Node ls [args]) ->
+  exists args', helper_path idx row (Node lp segs) =
+                Node (K "Path" "") [Node (K "Seg" (helper_ident (ld ls) idx)) [args']].
+Proof. intro H. unfold helper_path. rewrite H. eexists. reflexivity. Qed.
